@@ -190,13 +190,13 @@ def run(tier, res, replay=None):
     U = fitted_type(3, OF, use_low_fidelity_model=True)
     p7 = layout_positions(7)
 
-    def core(types, names, gap_model='flow', skip=()):
+    def core(types, names, gap_model='flow', skip=(), **kw):
         lay = [(r_, p_, names[i]) for i, (r_, p_) in enumerate(p7)
                if i not in skip]
         flows = [flow_for(types[n], 0.1) * (0.8 + 0.07 * i)
                  for i, (_, _, n) in enumerate(lay)]
         return make_core(rng, types, lay, flows, gap_model=gap_model,
-                         bypass_fraction=0.03, power_order=1, ncell=2)
+                         bypass_fraction=0.03, power_order=1, ncell=2, **kw)
     cores = [('core-mixed', core({'A': A, 'B': B},
                                  ['A', 'B', 'A', 'A', 'A', 'A', 'A']), 1),
              ('core-mixed-k2', core({'A': A, 'B': B},
@@ -204,6 +204,13 @@ def run(tier, res, replay=None):
              ('core-missing', core({'A': A, 'B': B},
                                    ['A', 'B', 'A', 'A', 'B', 'A', 'A'],
                                    skip=(3,)), 1),
+             # temperature-dependent coolant with a property-update
+             # tolerance: when correlations are refreshed is part of each
+             # assembly's own state
+             ('core-sodium-updtol', core({'A': A, 'B': B},
+                                         ['A', 'A', 'B', 'A', 'A', 'A', 'A'],
+                                         coolant='sodium',
+                                         setup={'param_update_tol': 0.02}), 1),
              ('core-dd-lowfi-noflow', core({'A': A, 'DD': DD, 'U': U},
                                            ['DD', 'A', 'U', 'A', 'A', 'U', 'A'],
                                            gap_model='no_flow'), 1)]
